@@ -11,9 +11,9 @@ echo "demo_cmd: $demo_cmd" | tee -a $LOG
 run_demo() { ( eval "$demo_cmd" ) >>$LOG 2>&1; echo $?; }
 git -C $WT diff > $M/patch.confirm.diff
 with=$(run_demo); echo "demo with patch: exit $with" | tee -a $LOG
-git -C $WT stash -q
+git -C $WT apply -R $M/patch.confirm.diff   # (git stash is shared between worktrees: not used)
 without=$(run_demo); echo "demo without patch: exit $without" | tee -a $LOG
-git -C $WT stash pop -q
+git -C $WT apply $M/patch.confirm.diff
 trc=0
 if [ -n "$TESTS" ]; then
   IFS=';' read -ra CMDS <<< "$TESTS"
